@@ -236,7 +236,7 @@ Proof.
   - intros H Hnd. inversion H; subst. split; [exact Hnd|]. split; [|split; [|constructor]].
     + intros x. cbn [In]. tauto.
     + cbn [In]. tauto.
-  - destruct r as [| |a]; try discriminate.
+  - destruct r as [| | |a]; try discriminate.
     unfold is_unspecified. destruct (N.eqb_spec a 0) as [Ha|Ha].
     + subst a. destruct auto; [discriminate|]. intros H Hnd.
       destruct (IH _ _ _ _ H Hnd) as [Hnd' [Hin [Hauto Hall]]].
@@ -309,7 +309,8 @@ Proof.
   induction l as [|r tl IH]; intros auto set; cbn [parse_servers raw_addrs flat_map].
   - cbn [is_ok]. split; [intros _|reflexivity]. split; [constructor|]. split; [constructor|].
     split; [intros x [] | intros _ []].
-  - destruct r as [| |a]; cbn [is_ok app].
+  - destruct r as [| | |a]; cbn [is_ok app].
+    + split; [discriminate | intros [H _]; inversion H; contradiction].
     + split; [discriminate | intros [H _]; inversion H; contradiction].
     + split; [discriminate | intros [H _]; inversion H; contradiction].
     + fold (raw_addrs tl). unfold is_unspecified. destruct (N.eqb_spec a 0) as [Ha|Ha].
